@@ -75,6 +75,14 @@ Lemma vst_status_update s t k t' :
   (vk_eqb k Chamber && vt_eqb t' t) || vst_status s t' Chamber.
 Proof. destruct k; cbn; try reflexivity. Qed.
 
+Lemma vst_status_clear s t k t' :
+  vst_status (vst_clear s t k) t' Chamber = true -> vst_status s t' Chamber = true.
+Proof.
+  destruct k; cbn; try tauto.
+  intros Hx. apply existsb_exists in Hx. destruct Hx as (x & Hin & Hx).
+  apply filter_In in Hin. apply existsb_exists. exists x. tauto.
+Qed.
+
 (* ---- the history predicates ---------------------------------------------------- *)
 Section WithEnv.
 Variable E : env.
@@ -85,7 +93,7 @@ Definition counted_by_msg (H : list op) (r i : N) (t : vtype) (k : vkind) (h a n
     H = H1 ++ Msg m :: H2 /\
     m_round m = r /\ m_idx m = i /\ m_type m = t /\ m_hash m = h /\ m_sender m = a /\
     w32 (m_votes m) = n /\ m_sig m = true /\ m_stake m = Some (thr, k) /\
-    cred_ok (run_state E H1) m = true.
+    cred_ok E (run_state E H1) m = true.
 
 Definition counted_own (r i : N) (t : vtype) (k : vkind) (a n : N) : Prop :=
   a = self E /\ exists n0 thr, own_view (own E) r i t = Some (n0, thr, k) /\ n = w32 n0.
@@ -661,8 +669,9 @@ Proof.
   2:{ inversion Hx; subst v' ev. apply good_nil. exact Hi. }
   destruct (m_stake m) as [[thr k]|] eqn:Hstake.
   2:{ inversion Hx; subst v' ev. apply good_nil. exact Hi. }
-  destruct (cred_ok v m) eqn:Hcred; cbn [negb] in Hx.
-  2:{ inversion Hx; subst v' ev. apply good_nil. exact Hi. }
+  destruct (cred_verdict E v m) eqn:Hverdict;
+    try (inversion Hx; subst v' ev; apply good_nil; exact Hi).
+  assert (Hcred : cred_ok E v m = true) by (unfold cred_ok; rewrite Hverdict; reflexivity).
   assert (Hcnt : Counted H (m_round m) (m_idx m) (m_type m) k (m_hash m) (m_sender m) (w32 (m_votes m))).
   { left. exists Hp, [], m, thr. subst v. repeat split; try assumption; reflexivity. }
   assert (Hmain :
@@ -689,7 +698,17 @@ Proof.
                               (w_votes w2 V.Precommit House (m_hash m))], ret_ok)
               else (v1, [], ret_ok)
             | ADifferent =>
-              let v1 := set_ws v (set_wrapper ws key w1) in
+              let v0 := set_ws v (set_wrapper ws key w1) in
+              let v1 :=
+                match oldh with
+                | Some h0 =>
+                  if fix_latch E && negb (vt_eqb t V.NextIndex) && key_eqb key (cur_key v)
+                     && negb (over_threshold (match wsta w1 k t with Some s => cnt s h0 | None => 0 end)
+                                             thr (negb (vt_eqb t V.Certificate)))
+                  then set_over v0 ((h0, vst_clear (over_get v0 h0) t k) :: v_over v0)
+                  else v0
+                | None => v0
+                end in
               match oldh with
               | Some h0 =>
                 if negb (vt_eqb t V.NextIndex) && evid_on E
@@ -749,8 +768,20 @@ Proof.
           (apply Hplain; [exact Hw2|]); [constructor; [exact I|constructor] | constructor].
     - intros Hz; inversion Hz; subst v' ev. apply Hplain; [exact Hw1|constructor].
     - destruct oldh as [h0|].
-      + destruct (negb (vt_eqb (m_type m) V.NextIndex) && evid_on E); intros Hz; inversion Hz; subst v' ev;
-          (apply Hplain; [exact Hw1|]); [constructor; [exact I|constructor] | constructor].
+      + set (v0 := set_ws v (set_wrapper ws key w1)).
+        assert (Hclr : forall evs, Forall (EvOK H (is_pos (m_type m)) v) evs ->
+                  good H (is_pos (m_type m)) v
+                       (set_over v0 ((h0, vst_clear (over_get v0 h0) (m_type m) k) :: v_over v0)) evs).
+        { intros evs Hev. destruct (Hset w1 Hw1) as (J1 & J2). split; [|split; [repeat split|exact Hev]].
+          split; [exact J1|]. intros h' t' Hs. rewrite over_get_set_over in Hs.
+          change (round_of (set_over v0 _)) with (round_of v0). change (v_idx (set_over v0 _)) with (v_idx v0).
+          destruct (h0 =? h') eqn:Eh; [|apply J2; exact Hs].
+          assert (h' = h0) by lia. subst h'. apply vst_status_clear in Hs. apply J2. exact Hs. }
+        destruct (fix_latch E && negb (vt_eqb (m_type m) V.NextIndex) && key_eqb key (cur_key v)
+                  && negb (over_threshold (match wsta w1 k (m_type m) with Some s => cnt s h0 | None => 0 end)
+                                          thr (negb (vt_eqb (m_type m) V.Certificate))));
+          destruct (negb (vt_eqb (m_type m) V.NextIndex) && evid_on E); intros Hz; inversion Hz; subst v' ev;
+          first [ apply Hclr | apply Hplain; [exact Hw1|] ]; first [constructor; [exact I|constructor] | constructor].
       + intros Hz; inversion Hz; subst v' ev. apply Hplain; [exact Hw1|constructor].
     - intros Hz; inversion Hz; subst v' ev. apply Hplain; [exact Hw1|constructor]. }
   destruct (m_status m) eqn:Hst; try (apply Hmain; exact Hx);
